@@ -99,6 +99,9 @@ pub struct ShellSim {
     since_flush: u64,
     since_hk: u64,
     rexmit_next: bool,
+    script_phase: u8,
+    script_seq: u32,
+    script_link: usize,
     recent_marked: Option<usize>,
     steps_done: u64,
     steps_total: u64,
@@ -148,7 +151,7 @@ impl ShellSim {
             now: T0, n: 2, profile: "mixed".into(),
             path: vec![], rtt: vec![], group: None, registered: vec![], pending: VecDeque::new(),
             ack_buf: vec![], rx_seqs: Default::default(), rx_count: 0, sendfail: vec![], bp: None, bp_frames: Default::default(),
-            next_seq: 1000, sent_seqs: vec![], pkt_ctr: 0, since_flush: 0, since_hk: 0, rexmit_next: false, recent_marked: None, steps_done: 0, steps_total: 4000, victim_attempts: 0, quiet_on: false,
+            next_seq: 1000, sent_seqs: vec![], pkt_ctr: 0, since_flush: 0, since_hk: 0, rexmit_next: false, script_phase: 0, script_seq: 0, script_link: 0, recent_marked: None, steps_done: 0, steps_total: 4000, victim_attempts: 0, quiet_on: false,
             c: HashMap::new(),
         }
     }
@@ -473,6 +476,56 @@ async fn with_drain<F: std::future::Future>(
     }
 }
 
+impl ShellSim {
+    /// A scripted history inside the random ones (mixed / fault schedules): a number is retransmitted (so that two
+    /// uplinks may hold it and the tracker names the second), the uplink that carried the retransmission then has
+    /// its socket refuse every send and is marked for recovery by the next flush, and a loss report for the number
+    /// arrives on another uplink.  The remembered carrier is down but still listed: nobody else may be charged.
+    fn script_step(&mut self, rng: &mut StdRng) -> Option<Value> {
+        let ph = self.script_phase;
+        if ph == 0 {
+            return None;
+        }
+        self.script_phase += 1;
+        match ph {
+            1 => Some(json!({"ev": "ClientPkt", "kind": "rexmit", "seq": self.script_seq, "len": 1332, "crit": false})),
+            2 | 10 => Some(json!({"ev": "FlushTick"})),
+            3 => match self.last_sel.filter(|l| self.conns.get(*l).is_some_and(|c| c.connected) && !self.sendfail[*l]) {
+                Some(l) => {
+                    self.script_link = l;
+                    Some(json!({"ev": "SendFail", "l": l + 1}))
+                }
+                None => {
+                    self.script_phase = 0;
+                    None
+                }
+            },
+            4..=9 => {
+                let s = self.next_seq;
+                self.next_seq += 1;
+                self.sent_seqs.push(s);
+                Some(json!({"ev": "ClientPkt", "kind": "data", "seq": s, "len": 1332, "crit": false}))
+            }
+            _ => {
+                self.script_phase = 0;
+                let other = (0..self.n).filter(|l| *l != self.script_link && self.conns[*l].connected).collect::<Vec<_>>();
+                if other.is_empty() {
+                    return None;
+                }
+                let via = other[rng.random_range(0..other.len())];
+                let mut b = vec![0u8; 20];
+                b[0..2].copy_from_slice(&SRT_TYPE_NAK.to_be_bytes());
+                for i in (4..20).step_by(4) {
+                    b[i..i + 4].copy_from_slice(&self.script_seq.to_be_bytes());
+                }
+                self.bump("loss_report_for_a_number_whose_carrier_went_down");
+                Some(json!({"ev": "UplinkPkt", "l": via + 1, "bytes": b, "stray": true}))
+            }
+        }
+    }
+
+}
+
 impl Engine for ShellSim {
     fn reset(&mut self, cfg: &Value, _case_key: u64) {
         self.build(cfg);
@@ -770,6 +823,19 @@ impl Engine for ShellSim {
 
     fn gen_event(&mut self, rng: &mut StdRng) -> Option<Value> {
         self.steps_done += 1;
+        if let Some(ev) = self.script_step(rng) {
+            return Some(ev);
+        }
+        if matches!(self.profile.as_str(), "mixed" | "fault") && self.n >= 2 && self.reg.has_connected && self.sent_seqs.len() > 30
+            && rng.random_range(0..150) == 0
+        {
+            let k = self.sent_seqs.len();
+            self.script_seq = self.sent_seqs[k - 1 - rng.random_range(0..12)];
+            self.script_phase = 1;
+            if let Some(ev) = self.script_step(rng) {
+                return Some(ev);
+            }
+        }
         // 1. replies of the fake receiver that are due
         if let Some(pos) = self.pending.iter().position(|r| r.at <= self.now) {
             let r = self.pending.remove(pos).unwrap();
